@@ -31,7 +31,7 @@ def ensure_sv():
     head = sh(["git", "-C", REPO, "rev-parse", "HEAD"]).stdout.strip()
     if os.path.exists(SV):
         cur = sh(["git", "-C", SV, "rev-parse", "HEAD"]).stdout.strip()
-        sh(["git", "-C", SV, "checkout", "--", "."])
+        sh(["git", "-C", SV, "reset", "--hard", "-q"])
         sh(["git", "-C", SV, "clean", "-fdq", "--exclude=target"])
         if cur != head:
             sh(["git", "-C", SV, "checkout", "-q", "--detach", head])
@@ -93,6 +93,7 @@ def main():
     if ap.returncode != 0:
         ap3 = sh(["git", "-C", SV, "apply", "-3", diff])
         if ap3.returncode != 0:
+            sh(["git", "-C", SV, "reset", "--hard", "-q"])
             print(sid, "DIFF DOES NOT APPLY to the current tree:", ap.stdout.strip()[:300])
             meta["confirmed"]["applies"] = False
             os.makedirs(out, exist_ok=True)
